@@ -122,7 +122,7 @@ class Table:
             a, b = t[1], t[2]
             feats = []
             for x, y in ((a, b), (b, a)):
-                if isinstance(x, tuple) and x and x[0] == "set" and not self.is_closed(x):
+                if isinstance(x, tuple) and x and x[0] in ("set", "list") and not self.is_closed(x):
                     for el in x[1:]:
                         self._note(el, y)
                         if self._is_feature(el):
@@ -135,7 +135,7 @@ class Table:
             for x in (a, b):
                 if x in feats:
                     continue
-                if isinstance(x, tuple) and x and x[0] == "set":
+                if isinstance(x, tuple) and x and x[0] in ("set", "list"):
                     for el in x[1:]:
                         if el not in feats:
                             self._scan(el)
@@ -230,7 +230,8 @@ def _canon(t):
             and t[3] == P("bond_order") and isinstance(t[2], tuple) and t[2][0] == "call" and t[2][1] == "guess_bond_order":
         return "BO(%s)" % ",".join(_canon(x) for x in t[2][2][1:])
     if t[0] == "call":
-        return "%s(%s)" % (t[1], ",".join(_canon(x) for x in t[2][1:]))
+        kws = t[3][1:] if len(t) > 3 and isinstance(t[3], tuple) and t[3] and t[3][0] == "kws" else ()
+        return "%s(%s)" % (t[1], ",".join([_canon(x) for x in t[2][1:]] + ["%s=%s" % (k, _canon(v)) for k, v in kws]))
     if t[0] in ("add", "mul"):
         return "%s(%s)" % (t[0], ",".join(sorted(_canon(x) for x in t[1:])))
     return "%s(%s)" % (t[0], ",".join(_canon(x) for x in t[1:]))
@@ -669,6 +670,14 @@ def _fmt(x):
     return "%.10g" % x
 
 
+def _decidable(tab, cond, env):
+    try:
+        tab.ev(cond, env)
+        return True
+    except Unknown:
+        return False
+
+
 def canon_expr(tab, t, env):
     """Canonical text of an arithmetic term modulo associativity, commutativity, constant folding, a-b = a+(-1)b, x/y = x*y^-1,
     sqrt(x) = x^0.5.  Sub-terms that are not arithmetic are kept as canonical atoms."""
@@ -682,7 +691,12 @@ def canon_expr(tab, t, env):
         v = t[1]
         return _fmt(float(v)) if isinstance(v, (int, float)) and not isinstance(v, bool) else repr(v)
     if op in ("phi", "ifexp") and not _canon(t).startswith("BO("):
-        return canon_expr(tab, t[2] if tab.ev(t[1], env) else t[3], env)
+        try:
+            c_ = tab.ev(t[1], env)
+        except Unknown:
+            # the condition is not a table condition (e.g. `bond_order is None`): keep the conditional as an opaque, canonically printed atom
+            return "%s(%s ? %s : %s)" % (op, _canon(t[1]), canon_expr(tab, t[2], env), canon_expr(tab, t[3], env))
+        return canon_expr(tab, t[2] if c_ else t[3], env)
     if op in ("add", "sub", "neg", "mul", "div", "pow") or (op == "call" and t[1] == "sqrt"):
         terms = {}
 
@@ -695,7 +709,7 @@ def canon_expr(tab, t, env):
                 add_terms(x[2], -sign)
             elif isinstance(x, tuple) and x[0] == "neg":
                 add_terms(x[1], -sign)
-            elif isinstance(x, tuple) and x[0] in ("phi", "ifexp") and not _canon(x).startswith("BO("):
+            elif isinstance(x, tuple) and x[0] in ("phi", "ifexp") and not _canon(x).startswith("BO(") and _decidable(tab, x[1], env):
                 add_terms(x[2] if tab.ev(x[1], env) else x[3], sign)
             else:
                 c, atoms = _mono(tab, x, env)
@@ -711,9 +725,11 @@ def canon_expr(tab, t, env):
             return parts[0]
         return "SUM[" + " + ".join(parts) + "]"
     if op == "call":
-        return "%s(%s)" % (t[1], ",".join(canon_expr(tab, x, env) for x in t[2][1:]))
+        kws = t[3][1:] if len(t) > 3 and isinstance(t[3], tuple) and t[3] and t[3][0] == "kws" else ()
+        return "%s(%s)" % (t[1], ",".join([canon_expr(tab, x, env) for x in t[2][1:]] + ["%s=%s" % (k, canon_expr(tab, v, env)) for k, v in kws]))
     if op == "mcall":
-        return "%s.%s(%s)" % (canon_expr(tab, t[1], env), t[2], ",".join(canon_expr(tab, x, env) for x in t[3][1:]))
+        kws = t[4][1:] if len(t) > 4 and isinstance(t[4], tuple) and t[4] and t[4][0] == "kws" else ()
+        return "%s.%s(%s)" % (canon_expr(tab, t[1], env), t[2], ",".join([canon_expr(tab, x, env) for x in t[3][1:]] + ["%s=%s" % (k, canon_expr(tab, v, env)) for k, v in kws]))
     if op == "param":
         return t[1]
     if op == "free":
@@ -735,6 +751,8 @@ def _mono(tab, t, env):
     if op == "const" and isinstance(t[1], (int, float)) and not isinstance(t[1], bool):
         return float(t[1]), {}
     if op in ("phi", "ifexp") and not _canon(t).startswith("BO("):
+        if not _decidable(tab, t[1], env):
+            return 1.0, {canon_expr(tab, t, env): 1}
         return _mono(tab, t[2] if tab.ev(t[1], env) else t[3], env)
     if op == "mul":
         c, atoms = 1.0, {}
@@ -785,16 +803,34 @@ def _mono(tab, t, env):
 
 
 def _numeric_features(tab):
-    """extend the domains: a feature ordered against numeric literals takes values around each literal"""
+    """extend the domains: a (maximal) feature ordered against numeric literals takes values around each literal; comparisons inside the
+    definition of a larger feature belong to that feature and are not enumerated separately"""
     extra = {}
 
     def scan(t):
         if not isinstance(t, tuple):
             return
-        if t and t[0] in ("gt", "ge", "lt", "le") and len(t) == 3:
+        if t and t[0] in _CMP_OPS and len(t) == 3:
+            feats = []
             for a, b in ((t[1], t[2]), (t[2], t[1])):
-                if isinstance(b, tuple) and b[0] == "const" and isinstance(b[1], (int, float)) and tab._is_feature(a):
-                    extra.setdefault(a, set()).update({b[1] - 1, b[1], b[1] + 1})
+                if tab._is_feature(a):
+                    feats.append(a)
+                    if t[0] in ("gt", "ge", "lt", "le") and isinstance(b, tuple) and b[0] == "const" and isinstance(b[1], (int, float)) and not isinstance(b[1], bool):
+                        extra.setdefault(a, set()).update({b[1] - 1, b[1], b[1] + 1})
+                elif isinstance(a, tuple) and a and a[0] in ("set", "list"):
+                    for el in a[1:]:
+                        if tab._is_feature(el):
+                            feats.append(el)
+            for x in (t[1], t[2]):
+                if x in feats:
+                    continue
+                if isinstance(x, tuple) and x and x[0] in ("set", "list"):
+                    for el in x[1:]:
+                        if el not in feats:
+                            scan(el)
+                else:
+                    scan(x)
+            return
         for x in t:
             scan(x)
     for conds, leaf in tab.dl:
